@@ -305,7 +305,7 @@ func (t *Template) parseTemplate(cacheAfterParsing bool, parsing []string) (next
 
 	for t.peek().typ != itemEOF {
 		switch n := t.textOrAction(); n.Type() {
-		case nodeEnd, nodeElse, nodeContent:
+		case nodeEnd, nodeElse, nodeContent, nodeCatch:
 			t.errorf("unexpected %s", n)
 		default:
 			t.Root.append(n)
@@ -507,7 +507,7 @@ func (t *Template) itemList(terminatedBy ...NodeType) (list *ListNode, next Node
 			}
 		}
 		switch n.Type() {
-		case nodeEnd, nodeElse, nodeContent:
+		case nodeEnd, nodeElse, nodeContent, nodeCatch:
 			// a clause marker that does not belong to the enclosing construct
 			t.errorf("unexpected %s", n)
 		}
